@@ -11,9 +11,9 @@ EXPLANATION = ('llsym runs the real mj_makeRawData (through the real mju_malloc 
                '"returns NULL" and "returns a fresh block": one symbolic run therefore covers every fault schedule (no fault, each single fault, every combination), not a sample of them. mju_error ends a path the way an '
                'unwinding error handler (longjmp / C++ exception, as the Python bindings install) does. On every path the obligations are: no load/store through NULL or outside a block (generated on each access), no double free, '
                'no free of a pointer that was not allocated, the failure is reported through mju_error, and no block is left allocated and unreachable when the call ends in an error.')
-BOUNDS = {'quick': {'functions': 'mj_makeRawData with *dest == NULL (allocating) and with an existing mjData (re-using)', 'model': 'every size 1, narena 1024', 'faults': 'all schedules of the <= 3 allocator calls'},
+BOUNDS = {'quick': {'functions': 'mj_makeRawData with *dest == NULL (allocating) and with an existing mjData (re-using); mj_makeModel allocating, every size 1', 'model': 'every size 1, narena 1024', 'faults': 'all schedules of the <= 3 allocator calls'},
           'thorough': {'same': 'plus a model with every size 2'}}
-OUTSIDE = ('the C++ parser / compiler / mjSpec layers (std::bad_alloc paths; not lowered); mj_makeModel and mj_copyModel (same allocate-struct-then-buffer pattern, not encoded yet); mj_copyDataVisual and _resetData plugin buffers (need registered plugins); '
+OUTSIDE = ('the C++ parser / compiler / mjSpec layers (std::bad_alloc paths; not lowered); mj_copyModel; mj_makeModel re-using an existing model; mj_copyDataVisual and _resetData plugin buffers (need registered plugins); '
            'simulation-time arena allocation (C19/C20); multi-threaded allocation.')
 ASSUMPTIONS = ['mj_setPtrData (pointer carving inside the already allocated buffer, no allocation) is skipped', 'mju_error / mju_message(ERROR) do not return (default handler exits, the bindings\' handler unwinds)', 'a block returned by the allocator is exactly as large as requested', 'no plugins (nplugin = 0)']
 BUDGET = {'quick': 600, 'thorough': 1500}
@@ -118,6 +118,64 @@ def unit_rawdata(tier, reuse, size):
     return ck
 
 
+def unit_makemodel(tier, size):
+    """mj_makeModel(&m = NULL, every size = `size`): the same struct-then-buffer allocation pattern, every fault schedule"""
+    ck = Checker('makeModel_alloc_n%d' % size, tier, timeout_s=60)
+    w = W.World(); dest = w.obj('dest', 8); dest.put(0, 'ptr', None)
+    def amalloc(ex, st, args, ins):
+        n = ex.as_int(args[0]); k = len(st.aux.get('sched', ()))
+        s_fail = st.clone(); s_fail.aux['sched'] = st.aux.get('sched', ()) + ('fail',)
+        if ins.dst is not None: s_fail.stack[-1].regs[ins.dst] = llsym.NULL
+        st.aux['sched'] = st.aux.get('sched', ()) + ('ok',)
+        p = st.alloc(n, ('heap', k), default=lambda e, off, t: e.zero(t)); st.objs[p.obj].heap = True
+        st.aux['live'] = st.aux.get('live', frozenset()) | {p.obj}
+        if ins.dst is not None: st.stack[-1].regs[ins.dst] = p
+        return [st, s_fail]
+    def afree(ex, st, args, ins):
+        p = args[0]
+        if not isinstance(p, llsym.Ptr) or p.obj == 0: st.aux['badfree'] = st.aux.get('badfree', ()) + ('free(NULL)',); return None
+        o = st.objs[p.obj]
+        if o.freed or p.obj not in st.aux.get('live', frozenset()): st.aux['badfree'] = st.aux.get('badfree', ()) + ('double / foreign free of %s' % (o.name,),)
+        o.freed = True; st.aux['live'] = st.aux.get('live', frozenset()) - {p.obj}
+        return None
+    noop = lambda e, s_, a_, i_: None
+    ex = llsym.Exec(mod(), loop_bound=2000, stubs={'mju_alignedMalloc': amalloc, 'mju_alignedFree': afree, 'mj_setPtrModel': noop, 'mj_defaultOption': noop, 'mj_defaultVisual': noop, 'mj_defaultStatistic': noop,
+                                                   'mju_warning': lambda e, s_, a_, i_: s_.log.append(('warning',))}, max_paths=5000)
+    fn = mod().fns['@mj_makeModel']
+    st = w.to_state(ex)
+    args = [w.P(dest)] + [z3.BitVecVal(size, 64)] * (len(fn.params) - 1)
+    res = ex.run('@mj_makeModel', args, st); ck.note_results(ex, res)
+    scheds = set()
+    for r in res:
+        sched = r.state.aux.get('sched', ()); scheds.add((sched, r.kind)); tag = '/'.join(sched) or 'no allocation'
+        bad = r.state.aux.get('badfree', ())
+        ck.prove('mj_makeModel schedule [%s]: every free releases a live heap block exactly once' % tag, r.state.pc, z3.BoolVal(not bad), site='mj_makeModel:free', decode=lambda m_, b=bad: {'bad': list(b)})
+        ck.prove('mj_makeModel schedule [%s]: an allocation failure surfaces through mju_error, success returns normally' % tag, r.state.pc, z3.BoolVal((r.kind == 'error') == ('fail' in sched)), site='mj_makeModel:reported',
+                 decode=lambda m_, k=r.kind, inf=r.info: {'ended': k, 'info': str(inf)[:200]})
+        reach = reachable(r.state, {w.map[dest].obj})
+        leaked = [r.state.objs[o].name for o in r.state.aux.get('live', frozenset()) if o not in reach]
+        if r.kind == 'error':
+            ck.prove('mj_makeModel schedule [%s]: nothing is left allocated and unreachable after the failure' % tag, r.state.pc, z3.BoolVal(not leaked), site='mj_makeModel:leak-alloc',
+                     decode=lambda m_, lk=leaked, sc=sched: {'schedule': list(sc), 'leaked blocks (allocation index)': [str(x) for x in lk]}, replay=model_leak_replay(size, sched))
+        else:
+            ck.prove('mj_makeModel schedule [%s]: on success *dest holds the model and nothing else stays allocated' % tag, r.state.pc, z3.BoolVal(not leaked), site='mj_makeModel:success')
+    ck.selfcheck('all fault schedules explored', len(scheds) >= 3, sorted(scheds))
+    ck.reach('harness', []); ck.memory_obligations(res)
+    return ck
+
+
+def model_leak_replay(size, sched):
+    def rp(model, witness):
+        import ctypes
+        so = native()
+        def child():
+            lib = ctypes.CDLL(so); lib.vf_c21_model.restype = ctypes.c_int
+            return lib.vf_c21_model(int(size), list(sched).index('fail') if 'fail' in sched else -1)
+        r = W.run_child(child, timeout=30)
+        return (r[0] == 'ok' and r[1] % 100 > 0), {'native': str(r)[:100], 'meaning': 'blocks allocated during mj_makeModel that are neither freed nor reachable from *dest after the error handler unwound', 'schedule': list(sched)}
+    return rp
+
+
 def leak_replay(reuse, size, sched, want='leak'):
     """native confirmation with the public allocator hooks: mju_user_malloc fails according to the schedule, mju_user_error unwinds by longjmp; blocks still allocated afterwards and not owned by the caller are leaked"""
     def rp(model, witness):
@@ -146,6 +204,15 @@ static void* vf_m(size_t n) { if (vf21_calls++ == vf21_fail_at) return 0; void* 
 static void vf_f(void* p) { for (int i = 0; i < vf21_nb; i++) if (vf21_blocks[i] == p) { vf21_blocks[i] = 0; free(p); return; } vf21_bad++; /* not a live block: double free or foreign pointer */ }
 static void vf_e(const char* msg) { longjmp(vf21_jb, 1); }
 void mj_makeRawData(mjData** dest, const mjModel* m);
+void mj_makeModel(mjModel** dest, ...);
+int vf_c21_model(int size, int fail_at) {
+  mjModel* m = 0; long long s = size;
+  mju_user_malloc = vf_m; mju_user_free = vf_f; mju_user_error = vf_e; vf21_calls = 0; vf21_nb = 0; vf21_bad = 0; vf21_fail_at = fail_at;
+  if (!setjmp(vf21_jb)) { VF_CALL_MAKEMODEL; return 100 * vf21_bad; }
+  int leaked = 0;
+  for (int i = 0; i < vf21_nb; i++) if (vf21_blocks[i] && !(m && (m == vf21_blocks[i] || m->buffer == vf21_blocks[i]))) leaked++;
+  return leaked + 100 * vf21_bad;
+}
 int vf_c21_run(int reuse, int size, int fail_at) {
   static mjModel m; memset(&m, 0, sizeof(m));
 #define X(type, name, nr, nc) m.nr = size;
@@ -166,11 +233,16 @@ int vf_c21_run(int reuse, int size, int fail_at) {
 
 def native():
     if 'so' not in _c:
+        nparam = len(mod().fns['@mj_makeModel'].params) - 1
+        call = 'mj_makeModel(&m' + ', s' * nparam + ')'
+        global NATIVE_C
+        NATIVE_C = NATIVE_C.replace('VF_CALL_MAKEMODEL', call)
         _c['so'] = build.native_lib(['src/engine/engine_io.c'], ['src/engine/engine_util_errmem.c', 'src/engine/engine_util_blas.c', 'src/engine/engine_util_misc.c'], name='io_c21', extra_c='#include "engine/engine_macro.h"\n' + NATIVE_C if False else NATIVE_C)
     return _c['so']
 
 
 def units(tier):
     u = [('makeRawData_alloc_n1', 'unit_rawdata', {'reuse': False, 'size': 1}), ('makeRawData_reuse_n1', 'unit_rawdata', {'reuse': True, 'size': 1})]
+    u.append(('makeModel_alloc_n1', 'unit_makemodel', {'size': 1}))
     if tier != 'quick': u += [('makeRawData_alloc_n2', 'unit_rawdata', {'reuse': False, 'size': 2}), ('makeRawData_reuse_n2', 'unit_rawdata', {'reuse': True, 'size': 2})]
     return u
